@@ -284,9 +284,12 @@ def check_heter_list_ops(ctx, tu, info):
         loops = [b for b in f.blocks if f.block_reaches(b, b)]
         try:
             # returns false as soon as one per-prototype list is non-empty, true after the walk
-            rets = f.return_nodes()
-            vals = sorted(str(f.nodes[f.strip_all_casts(f.kids(r)[0])].get('value')) for r in rets)
-            ok = len(em) == 1 and bool(loops) and vals == ['False', 'True']
+            # (early returns, or a result variable that starts true and is set false where a non-empty list is found)
+            sites = f.result_sites()
+            vals = sorted({str(f.nodes[v].get('value')) for (_r, v) in sites})
+            falses = [r for (r, v) in sites if f.nodes[v].get('value') is False]
+            ok = len(em) == 1 and bool(loops) and vals == ['False', 'True'] and f.pos(em[0])[0] in loops \
+                and bool(falses) and all(f.pos_reaches(f.pos(em[0]), f.pos(r)) for r in falses)
         except Exception:
             ok = False
         ctx.ob('C14.F', f, 'empty() asks every per-prototype list', ok)
